@@ -704,10 +704,13 @@ func partB(run *rep.Run, seed int64) {
 		}
 		for _, rt := range routes {
 			for _, stream := range []bool{false, true} {
-				for _, st := range []int{200, 400, 500} {
-					for _, bc := range bodies {
+				for _, st := range []int{200, 400, 500, 99, -1, 42} { // Go's client accepts any three digits as a status
+					for bi, bc := range bodies {
 						if !rep.Thorough() && rng.Intn(3) != 0 && !strings.HasPrefix(bc.name, "big") {
 							continue
+						}
+						if st < 100 && bi > 2 {
+							continue // the status line is the hostile part here; a few bodies are enough
 						}
 						body := bc.gen(rng)
 						ct := "application/json"
@@ -735,6 +738,11 @@ func partB(run *rep.Run, seed int64) {
 						if el > 10*time.Second || strings.Contains(res.Err, "Timeout") || strings.Contains(res.Err, "deadline") {
 							run.Violation(fmt.Sprintf("C20/hang/stack/%s/stream=%v/error-status=%v/%s", rt.name, stream, st >= 400, sizeClass(len(body))),
 								fmt.Sprintf("request did not finish within 10 s (took %s, err=%q) when the backend answered %d with a %d-byte %s body", el.Round(time.Millisecond), res.Err, st, len(body), bc.name),
+								map[string]any{"case": key, "client": res})
+						}
+						if res.Status == 0 && el < 10*time.Second {
+							run.Violation(fmt.Sprintf("C20/no-answer/stack/%s/backend-status-line=%03d", rt.name, max(st, 0)),
+								fmt.Sprintf("the request ended with neither a response nor an HTTP error (client: %q) when the backend answered with status line %03d", res.Err, max(st, 0)),
 								map[string]any{"case": key, "client": res})
 						}
 						// make sure the endpoint is routable again for the next case
